@@ -1,6 +1,6 @@
 """Sub-process side of C12: runs one generation route in a fresh interpreter (its PYTHONHASHSEED is set by the parent).
 
-stdin: JSON {"route": "api" | "api-twice" | "cli" | "cli-config" | "cli-cache-twice", "dir": workdir, "sources": {name: text}, "options": {...},
+stdin: JSON {"route": "api" | "api-twice" | "api-after-other" (+ "other_options") | "cli" | "cli-config" | "cli-cache-twice", "dir": workdir, "sources": {name: text}, "options": {...},
              "package": "gen.pkg"};  stdout: JSON {"files": {relative path: text}, "error": null | str}
 """
 import hashlib
@@ -72,10 +72,20 @@ def main():
         import logging
         import warnings
         warnings.simplefilter("ignore")
-        if job["route"] in ("api", "api-twice"):
+        if job["route"] in ("api", "api-twice", "api-after-other"):
             from vlib.codegen import config_from
             from xsdata.codegen.transformer import ResourceTransformer
             uris = sorted(p.resolve().as_uri() for p in src.iterdir())
+            if job["route"] == "api-after-other":
+                # an earlier run in this interpreter with OTHER settings (same package, same sources) must leave nothing behind
+                pre = job["dir"].rstrip("/") + "_pre"
+                os.makedirs(pre, exist_ok=True)
+                os.chdir(pre)
+                try:
+                    ResourceTransformer(config=config_from(dict(job["other_options"], package=job["package"]))).process(uris)
+                except Exception:  # noqa: BLE001 - only the second run is judged
+                    pass
+                os.chdir(job["dir"])
             for _ in range(2 if job["route"] == "api-twice" else 1):
                 ResourceTransformer(config=config_from(options)).process(uris)
         else:
